@@ -19,7 +19,7 @@ IntegralCells ==
                       "imClosed_neg", "reAlt_neg", "series_pos", "valueAtZero",      \* direct quadrature vs independent representations
                       "decay_large", "beyond_low", "beyond_high"}]
 PotentialCells ==
-    [pot : {"stefanBoltzmannTable", "stefanBoltzmannDirect", "heavySuppressed", "thermalSum", "cwFormula",
+    [pot : {"stefanBoltzmannTable", "stefanBoltzmannDirect", "heavySuppressed", "heavyBeyondTable", "thermalSum", "cwFormula",
             "continuousAtZero_direct", "continuousAtZero_table"}]
     \cup [pot : {"continuousAtTableEnd"}, end : {"low", "high"}, mode : Modes]
     \cup [pot : {"imaginaryOption", "imaginaryOptionCW"}, opt : ImOpts, sign : {"pos", "neg"}]
@@ -45,6 +45,7 @@ Bound(c) ==
          [] OTHER -> 1                                            \* beyond the table: finite, correct, continuous with the end value
     ELSE CASE c.pot = "stefanBoltzmannDirect" -> 7
            [] c.pot = "stefanBoltzmannTable" -> 3                 \* x = 0 lies between two rows next to the non-smooth point
+           [] c.pot = "heavyBeyondTable" -> 10                    \* the same for m^2/T^2 from 1000.5 to 1e6, beyond the tables
            [] c.pot = "heavySuppressed" -> 10                     \* |V_T| / |V_SB| below 1e-10 at m^2/T^2 = 900
            [] c.pot = "thermalSum" -> 7
            [] c.pot = "cwFormula" -> 12
@@ -62,5 +63,5 @@ Spec == Init /\ [][Next]_vars
 Complete == done = Cells
 Small == Cardinality(done) <= 2
 Monotone == [][done \subseteq done']_vars
-CellCount == Cardinality(Cells) = 32 + 7 + 6 + 16
+CellCount == Cardinality(Cells) = 32 + 8 + 6 + 16
 =============================================================================
